@@ -183,8 +183,9 @@ func c14Run(rc *sim.RunCtx) {
 		defer restore()
 		if policy == 0 && pollute {
 			// history of the pool: another VM was aborted while it held pooled child VMs (nested), which then went back to the pool
-			abc := mustCompile(sim.PreludeCall+"g := func() { x := 0; for { x++ } }\nf := func() { return call(g) }\nreturn call(f)\n", mm, false)
-			aw := sim.NewWorld(&sim.WorldSpec{Name: "aborted", Pooled: []bool{true, true}, Repeat: []int{0, 0}}, nil)
+			// (the outer function first uses and gives back a grandchild, then sits in another one when the abort comes)
+			abc := mustCompile(sim.PreludeCall+"h := func() { return 1 }\ng := func() { x := 0; for { x++ } }\nf := func() { call(h); call(h); return call(g) }\nreturn call(f)\n", mm, false)
+			aw := sim.NewWorld(&sim.WorldSpec{Name: "aborted", Pooled: []bool{true, true, true, true}, Repeat: []int{0, 0, 0, 0}}, nil)
 			asc := &sim.StepCounter{Cap: 5000, AbortAt: int64(30 + t.Draw(200))}
 			ar := asc.Install()
 			ugo.NewVM(abc).Run(aw.Globals)
